@@ -21,7 +21,7 @@ import sys
 import time
 
 VERIF = os.path.dirname(os.path.dirname(os.path.abspath(__file__)))
-SRC_REPO = '/repo'
+SRC_REPO = '/tmp/mut/pristine'      # snapshot of /repo's HEAD (git archive), so that work going on in /repo's tree cannot leak into a mutant
 SCRATCH = '/tmp/mut'
 
 CMP = {ast.Eq: ('==', '!='), ast.NotEq: ('!=', '=='), ast.Lt: ('<', '<='), ast.LtE: ('<=', '<'), ast.Gt: ('>', '>='), ast.GtE: ('>=', '>'),
@@ -148,7 +148,14 @@ def gen_file(rel):
     return good
 
 
+def snapshot():
+    if not os.path.exists(SRC_REPO):
+        os.makedirs(SRC_REPO)
+        subprocess.run('git -C /repo archive HEAD rsocket reactivestreams | tar -x -C %s' % SRC_REPO, shell=True, check=True)
+
+
 def cmd_gen(out, files):
+    snapshot()
     anc = anchors()
     files = files or sorted(anc)
     n = 0
@@ -244,6 +251,7 @@ def run_mutant(k, m, timeout=420):
 def cmd_run(mfile, rfile, jobs, limit, shuffle_seed=1, survivors_of=None):
     from concurrent.futures import ThreadPoolExecutor
     import threading
+    snapshot()
     muts = [json.loads(l) for l in open(mfile)]
     if survivors_of:
         # second pass: the mutants nothing reported in the first pass, against the checks of all twenty properties
